@@ -484,7 +484,11 @@ func (o *Options) GetCompactionGPOverlaps(level int) int {
 }
 
 func (o *Options) GetCompactionL0Trigger() int {
-	if o == nil || o.CompactionL0Trigger == 0 {
+	// A trigger below one never fires: the level-0 score is the number of
+	// tables divided by the trigger, and a compaction starts at score >= 1.
+	// Level-0 would grow until the write pause trigger is reached and writers
+	// would then wait for a compaction that is never considered necessary.
+	if o == nil || o.CompactionL0Trigger <= 0 {
 		return DefaultCompactionL0Trigger
 	}
 	return o.CompactionL0Trigger
